@@ -118,6 +118,19 @@ impl TxWal {
     /// Returns an error if the file cannot be opened or created.
     pub fn open_with_config(path: impl AsRef<Path>, config: WalConfig) -> io::Result<Self> {
         let path = path.as_ref().to_path_buf();
+
+        // A crash in the middle of an append leaves a partial record at the
+        // end of the file. Cut it off before appending: records written after
+        // a partial one could never be read back.
+        if let Ok(meta) = std::fs::metadata(&path) {
+            let valid = Self::complete_records_len(&path)?;
+            if valid < meta.len() {
+                let file = OpenOptions::new().write(true).open(&path)?;
+                file.set_len(valid)?;
+                file.sync_all()?;
+            }
+        }
+
         let file = OpenOptions::new().create(true).append(true).open(&path)?;
 
         // Get current file size
@@ -132,6 +145,30 @@ impl TxWal {
             current_size,
             config,
         })
+    }
+
+    /// Length of the longest prefix of the file made of complete records
+    /// (`[4-byte length][4-byte CRC32][payload]`).
+    fn complete_records_len(path: &Path) -> io::Result<u64> {
+        let mut reader = BufReader::new(File::open(path)?);
+        let mut valid = 0u64;
+        loop {
+            let mut header = [0u8; 8];
+            match reader.read_exact(&mut header) {
+                Ok(()) => {},
+                Err(e) if e.kind() == io::ErrorKind::UnexpectedEof => break,
+                Err(e) => return Err(e),
+            }
+            let len = u64::from(u32::from_le_bytes([
+                header[0], header[1], header[2], header[3],
+            ]));
+            let copied = io::copy(&mut reader.by_ref().take(len), &mut io::sink())?;
+            if copied < len {
+                break;
+            }
+            valid += 8 + len;
+        }
+        Ok(valid)
     }
 
     /// Count entries in an existing WAL file.
